@@ -135,15 +135,35 @@ def oracle(ck, tier, deep):
             if max(abs(got[0] - cy), abs(got[1] - cx)) > tol:
                 ck.violation(dict(site="find_origin", method=meth, clause="symmetric-centre"), dict(shape=[rows, cols], centre=[cy, cx], image=im.tolist()),
                              f"{meth} returned {got} for content symmetric about {(cy, cx)} near the frame's edge")
-    # Gaussian fit on Gaussian spots (to fit accuracy), translation on the same
-    for _ in range(25 if not deep else 200):
+    # Gaussian fit on Gaussian spots (to fit accuracy), translation on the same: ordinary spots, spots sharper than a pixel (their
+    # true amplitude is higher than any sample), and broad spots cut off unevenly by the frame (still exactly Gaussian axis sums)
+    for it in range(36 if not deep else 300):
+        kind = ("ordinary", "sharp", "truncated")[it % 3]
         rows, cols = (int(v) for v in rng.integers(41, 70, size=2))
         cy, cx = rows / 2 + rng.uniform(-4, 4), cols / 2 + rng.uniform(-4, 4)
         sy, sx = rng.uniform(2.5, 5), rng.uniform(2.5, 5)
+        if kind == "sharp":
+            sy, sx = rng.uniform(0.4, 0.85), rng.uniform(0.4, 0.85)
+        elif kind == "truncated":
+            rows, cols = (int(v) for v in rng.integers(12, 26, size=2))
+            sy, sx = rng.uniform(0.2, 0.3) * rows, rng.uniform(0.2, 0.3) * cols
+            cy, cx = rows / 2 + rng.uniform(-1.5, 1.5), cols / 2 + rng.uniform(-1.5, 1.5)
         yy, xx = np.mgrid[:rows, :cols]
-        im = 3.0 * np.exp(-(yy - cy) ** 2 / (2 * sy ** 2) - (xx - cx) ** 2 / (2 * sx ** 2)) + 0.2
-        ck.count(("S.gauss", rows % 2, cols % 2), suite="S.gaussian")
-        rep = dict(shape=[rows, cols], centre=[cy, cx], sigma=[sy, sx])
+        im = 3.0 * np.exp(-(yy - cy) ** 2 / (2 * sy ** 2) - (xx - cx) ** 2 / (2 * sx ** 2)) + (0.2 if kind != "truncated" else 0.0)
+        ck.count(("S.gauss", kind, rows % 2, cols % 2), suite="S.gaussian")
+        rep = dict(kind=kind, shape=[rows, cols], centre=[cy, cx], sigma=[sy, sx])
+        if kind == "truncated":           # (no room for translations; the centre and the intensity unit are what is judged)
+            try:
+                got = quiet(find_origin, im, "gaussian")
+                got_s = quiet(find_origin, im * 0.05, "gaussian")
+            except Exception as e:
+                ck.violation(dict(site="find_origin", method="gaussian", clause="exception"), rep, f"{type(e).__name__}: {e}")
+                continue
+            if max(abs(got[0] - cy), abs(got[1] - cx)) > 1e-3:
+                ck.violation(dict(site="find_origin", method="gaussian", clause="gaussian-centre"), rep, f"gaussian fit returned {got}, true centre {(cy, cx)}")
+            if max(abs(got_s[0] - got[0]), abs(got_s[1] - got[1])) > 1e-3:
+                ck.violation(dict(site="find_origin", method="gaussian", clause="scale"), rep, f"gaussian: scaling moved {got} -> {got_s}")
+            continue
         try:
             got = quiet(find_origin, im, "gaussian")
             got2 = quiet(find_origin, np.roll(np.roll(im, 3, axis=0), -2, axis=1), "gaussian")
